@@ -1,8 +1,10 @@
 """C20 -- query commands agree with the graph and predict rebuilds.
 Tie (CLI, real binary): `grog deps|rdeps [-t] [--target-type=..] <label>`, `grog owners <files>`,
 `grog list <patterns>` on generated BUILD.json workspaces with aliases; stdout is compared as a
-MULTISET of lines with Select.deps_query / rdeps_query / owners / list_query and as a SET with a
-Python reference (BFS over the dependency relation).  Rebuild prediction: build, edit one input
+MULTISET of lines with Select.deps_query / rdeps_query / owners / list_query (every label once since
+the repair of C20-F1: C20_*_printed_nodup) and as a SET with a Python reference (BFS over the
+dependency relation).  In-process: GetAncestors / GetDescendants against Select.deps_t / rdeps_t as
+multisets of nodes, GetAncestors also as a list (first-visit order).  Rebuild prediction: build, edit one input
 file, build again; the commands of the second build must be a subset of owners(f) + their
 transitive rdeps as printed by the real query commands (+ targets tagged no-cache)."""
 import json, os
@@ -162,13 +164,19 @@ def check_query(out, nodes, q, res, mline, findings, stats, budget):
                 " ".join(res["args"]), res["cwd"], sorted(gs), sorted(want), sorted(extra), sorted(missing)), rp)
         else:
             ok = False
-    # the code follows ONE of the two model variants: the path enumeration (C20-F1) or its de-duplication
+    # model self-check: de-duplicating the node list before filtering changes nothing (every label is printed once anyway)
     dedup = [vlib.unhxs(x) for x in f[2].split(",")] if len(f) > 2 and f[2] else (model if len(f) <= 2 else [])
+    if model != dedup or len(set(model)) != len(model):
+        stats["model_selfcheck_failed"] = stats.get("model_selfcheck_failed", 0) + 1
+        if budget[0] > 0:
+            budget[0] -= 1
+            out.violation("model: Select.%s_query prints %s, with the node list de-duplicated first %s (contradicts C20_*_printed_nodup)" % (
+                q["kind"], model, dedup), dict(rp, theorem="C20_deps_printed_nodup"), no_input=True)
+    # the code prints exactly the model's lines, as a multiset
     if Counter(got) == Counter(model):
-        if Counter(model) != Counter(dedup):
-            stats["variant_paths"] = stats.get("variant_paths", 0) + 1
-    elif Counter(got) == Counter(dedup):
-        stats["variant_dedup"] = stats.get("variant_dedup", 0) + 1
+        stats["lines_equal_model"] = stats.get("lines_equal_model", 0) + 1
+    elif dups and findings.get(DUP_CLASS) and set(got) == set(model):
+        stats["explained_by_known_duplicates"] = stats.get("explained_by_known_duplicates", 0) + 1
     else:
         stats["model_mismatch"] += 1
         stats.setdefault("first_mismatch", rp)
@@ -289,9 +297,9 @@ def rebuild_prediction(out, grog, r, tier, stats):
     stats["rebuild_cases_with_reexecution"] = rebuilt_nonempty
 
 
-def inprocess_tie(out, worlds, r, stats):
-    """GetAncestors / GetDescendants / GetDependencies / GetDependants as multisets of nodes:
-    Select.ancestors_paths / descendants_paths / Graph.deps / Graph.dependants vs the real dag graph."""
+def inprocess_tie(out, worlds, r, stats, findings):
+    """GetAncestors / GetDescendants / GetDependencies / GetDependants as multisets of nodes (GetAncestors also as a
+    list: its order is determined): Select.deps_t / rdeps_t / Graph.deps / Graph.dependants vs the real dag graph."""
     try:
         h = vlib.build_harness("select")
     except vlib.HarnessUnavailable as e:
@@ -310,14 +318,15 @@ def inprocess_tie(out, worlds, r, stats):
     mism = 0
     for (nodes, cmd, n), a, m in zip(meta, impl, model):
         if a != m:
-            # ... or the de-duplicated variant of the enumeration
-            ma = m.split("\t")
-            if not (cmd != "direct" and len(ma) > 1 and a == "ms\t" + ",".join(str(x) for x in sorted(set(sl.idxs(ma[1]))))):
+            # a known finding C20-F1 explains a node returned once per path: same set, duplicates on the implementation's side only
+            ia, ma = a.split("\t"), m.split("\t")
+            il, ml = sl.idxs(ia[1]) if len(ia) > 1 else [], sl.idxs(ma[1]) if len(ma) > 1 else []
+            if cmd != "direct" and findings.get(DUP_CLASS) and ia[0] == "ms" and len(set(il)) < len(il) and sorted(set(il)) == ml:
+                stats["inprocess_explained_by_known_duplicates"] = stats.get("inprocess_explained_by_known_duplicates", 0) + 1
+            else:
                 mism += 1
                 if mism == 1:
                     first = (nodes, cmd, n, a, m)
-            else:
-                stats["inprocess_variant_dedup"] = stats.get("inprocess_variant_dedup", 0) + 1
         f = a.split("\t")
         if cmd != "direct" and f[0] == "ms":
             got = set(sl.idxs(f[1])) if len(f) > 1 else set()
@@ -327,9 +336,10 @@ def inprocess_tie(out, worlds, r, stats):
                     cmd.capitalize(), sl.label_of(nodes[n]), sorted(got), sorted(want)), {"nodes": nodes, "cmd": cmd, "n": n, "impl": a, "tie": "in-process"})
     if mism and not out.violations:
         nodes, cmd, n, a, m = first
-        out.violation("correspondence Select.ancestors_paths/descendants_paths/Graph.dependants ~ dag.GetAncestors/GetDescendants/GetDependants broke on "
+        out.violation("correspondence Select.deps_t/rdeps_t/Graph.dependants ~ dag.GetAncestors/GetDescendants/GetDependants broke on "
                       "%d cases: %s %d: impl=%s model=%s; no oracle of C20 fails" % (mism, cmd, n, a[:200], m[:200]),
-                      {"correspondence": "multiset of nodes returned by the traversal", "nodes": nodes, "cmd": cmd, "n": n, "impl": a, "model": m}, no_input=True)
+                      {"correspondence": "multiset of nodes returned by the traversal (and the order of GetAncestors)", "nodes": nodes, "cmd": cmd, "n": n,
+                       "impl": a, "model": m}, no_input=True)
     stats["inprocess_traversals"] = len(lines)
     stats["inprocess_mismatches"] = mism
     return True
@@ -348,12 +358,18 @@ def run(out, tier):
     base = os.path.join(vlib.scratch(), "c20")
     os.makedirs(base, exist_ok=True)
     worlds = []
-    # the refutation witness of C20_nodup first: the diamond
+    # the witness of the former refutation (C20-F1) first: the diamond (C20_diamond_printed), then a dependency that is
+    # declared twice, asked for directly (C20_declared_twice_printed)
     dia = [{"kind": "t", "pkg": "a", "name": n, "tags": [], "plats": [], "bin": False, "deps": d, "inputs": []}
            for n, d in (("lib", []), ("x", [0]), ("y", [0]), ("t", [1, 2]))]
     cfg0 = {"cur": "", "pats": [], "pat_meaning": [], "tags": [], "excl": [], "type": "all", "plat": "linux/amd64", "all": False}
     worlds.append((dia, [{"kind": "deps", "cfg": cfg0, "n": 3, "t": True, "relative": False},
                          {"kind": "rdeps", "cfg": cfg0, "n": 0, "t": True, "relative": False}]))
+    twice = [{"kind": "t", "pkg": "a", "name": n, "tags": [], "plats": [], "bin": False, "deps": d, "inputs": []}
+             for n, d in (("lib", []), ("t", [0, 0]))]
+    worlds.append((twice, [{"kind": "deps", "cfg": cfg0, "n": 1, "t": False, "relative": False},
+                           {"kind": "rdeps", "cfg": cfg0, "n": 0, "t": False, "relative": False},
+                           {"kind": "deps", "cfg": cfg0, "n": 1, "t": True, "relative": False}]))
     for _ in range(nws):
         nodes = sl.gen_world(r, nmax=10, files=True)
         worlds.append((nodes, gen_queries(r, nodes, nq)))
@@ -388,10 +404,10 @@ def run(out, tier):
                       "model %s; no oracle of C20 fails" % (stats["model_mismatch"], rp["cmd"], rp["stdout"], rp["model"]),
                       dict(rp, correspondence="Select.v queries vs grog deps/rdeps/owners/list stdout (multiset of lines)"), no_input=True)
     stats.pop("first_mismatch", None)
-    for wi in range(1, min(len(worlds), 13 if tier == "quick" else 80)):
+    for wi in range(2, min(len(worlds), 14 if tier == "quick" else 81)):
         inverse_check(out, grog, os.path.join(base, "ws%d" % wi), env, worlds[wi][0], r, stats, budget)
     rebuild_prediction(out, grog, r, tier, stats)
-    inproc = inprocess_tie(out, worlds, r, stats)
+    inproc = inprocess_tie(out, worlds, r, stats, findings)
     stats["by_kind"] = dict(stats["by_kind"])
     out.cov.update({
         "evaluations": len(jobs) + stats["inverse_pairs"] + stats.get("rebuild_cases", 0) + stats.get("inprocess_traversals", 0),
